@@ -229,15 +229,19 @@ func (op LinearQuantizer) Simulate(vm *VM, instr string) error {
 	sn := float64(op.max)
 	s := sd / sn
 
-	switch *op.pipeline {
+	// The pipeline phase belongs to the processor executing the instruction, not to the opcode value
+	// (which is shared by every machine and every simulation that uses this opcode)
+	phaseKey := op.lqName + "_pipeline"
+	phase, _ := vm.Extra_states[phaseKey].(uint8)
+	switch phase {
 	case LQPUT:
 		if op.opType == LQMULT || op.opType == LQDIV {
-			*op.pipeline = LQCORR
+			vm.Extra_states[phaseKey] = LQCORR
 		} else {
-			*op.pipeline = LQGET
+			vm.Extra_states[phaseKey] = LQGET
 		}
 	case LQCORR:
-		*op.pipeline = LQGET
+		vm.Extra_states[phaseKey] = LQGET
 	case LQGET:
 		switch op.opType {
 		case LQADD:
@@ -278,7 +282,7 @@ func (op LinearQuantizer) Simulate(vm *VM, instr string) error {
 			}
 		}
 		vm.Pc = vm.Pc + 1
-		*op.pipeline = LQPUT
+		vm.Extra_states[phaseKey] = LQPUT
 	}
 	return nil
 }
